@@ -34,6 +34,28 @@ Theorem C14_parse_line : forall j, no_float j = true -> parse_line (render_line 
 Proof. exact parse_line_render. Qed.
 Print Assumptions C14_parse_line.
 
+(** ... and with finite floats, for ANY float printer whose output the strict parser reads as one RFC 8259 float token
+    (sign, digits, fraction and/or exponent) and stops: the line reads back as the same tree — all keys, strings, integers,
+    booleans, nulls and the nesting exactly, a float token wherever a float was written ([zero_floats]: the parser does
+    not interpret float text, the VALUE of floats is compared numerically by the correspondence only).  serde_json's
+    printer (ryu) is not modelled; the driver feeds every float token of every observed line to this very parser. *)
+Theorem C14_parse_render_any_float_printer : forall pf, float_token pf -> forall j,
+  parse (render_with pf j) = Some (zero_floats j) /\ parse_line (render_with pf j ++ [10]) = Some (zero_floats j).
+Proof. intros pf H j. split; [apply parse_render_with | apply parse_line_render_with]; exact H. Qed.
+Print Assumptions C14_parse_render_any_float_printer.
+
+Theorem C14_single_line_any_float_printer : forall pf, (forall b x, In x (pf b) -> 32 <= x) ->
+  forall j, ~ In 10 (render_with pf j) /\ ~ In 13 (render_with pf j).
+Proof. intros pf H. apply single_line_with. intro b. apply Forall_forall. intros x Hx. exact (H b x Hx). Qed.
+Print Assumptions C14_single_line_any_float_printer.
+
+Theorem C14_render_with_is_render : forall j,
+  render_with render_float j = render j /\ (forall pf, no_float j = true -> render_with pf j = render j /\ zero_floats j = j).
+Proof.
+  intro j. split; [apply render_with_model|]. intros pf NF. split; [apply render_with_nofloat | apply zero_floats_nofloat]; exact NF.
+Qed.
+Print Assumptions C14_render_with_is_render.
+
 (** the string-escaping fragment, for ALL byte strings and any continuation *)
 Theorem C14_parse_string : forall s rest, parse_value 1 (render_string s ++ rest) = Some (JStr s, rest).
 Proof. exact parse_string_render. Qed.
@@ -60,6 +82,19 @@ Theorem C14_run_records : forall c o en ops line,
               ~ In 10 (render (JObj kvs)) /\ ~ In 13 (render (JObj kvs)).
 Proof. exact run_records. Qed.
 Print Assumptions C14_run_records.
+
+(** HEADLINE.  Every line written by every history (events and lifecycle records, every option combination, both builds):
+    one JSON object with unique keys at every level, which the strict parser reads back — exactly when the record carries
+    no finite float, and with float tokens left uninterpreted for any float printer writing RFC 8259 float tokens. *)
+Theorem C14_run_lines_parse : forall pf c o en ops line,
+  float_token pf ->
+  Forall op_ok ops -> (forall e p, In (OEvent e p) ops -> event_ok o e) ->
+  In line (run c o en ops) ->
+  exists kvs, line = render (JObj kvs) ++ [10] /\ uniq (JObj kvs) /\
+              parse_line (render_with pf (JObj kvs) ++ [10]) = Some (zero_floats (JObj kvs)) /\
+              (no_float (JObj kvs) = true -> parse_line line = Some (JObj kvs)).
+Proof. exact run_lines_parse. Qed.
+Print Assumptions C14_run_lines_parse.
 
 Theorem C14_F143_refuted : forall c o en st p,
   let e := {| ev_level := 2; ev_target := []; ev_file := None; ev_line := None;
@@ -307,7 +342,8 @@ Theorem C14_model_matches_source :
   gen_jsonvisitor_strip_raw = model_jsonvisitor_strip_raw /\
   gen_serdemap_methods = model_serdemap_methods /\
   gen_jsonvisitor_log_skip = model_jsonvisitor_log_skip /\
-  gen_lifecycle = model_lifecycle /\ gen_lifecycle_parent_is_span = true /\ gen_timing_off_without_time = true.
+  gen_lifecycle = model_lifecycle /\ gen_lifecycle_parent_is_span = true /\ gen_timing_off_without_time = true /\
+  gen_metadata_normalised_under_log = true.
 Proof. exact gen_matches_model. Qed.
 Print Assumptions C14_model_matches_source.
 
